@@ -9,7 +9,7 @@ from vlib.strategies import byte_string_1_33
 
 ID = "C13"
 LEVEL = "exploration"
-RULE = ("Hypothesis-generated device states (seven independent random hashes, difficulties incl. "
+RULE = ("histories of 1..3 queries on one manager with the device state changing (and optionally a reconnection) in between; each: Hypothesis-generated device states (seven independent random hashes, difficulties incl. "
         "0 and 2^288-1, all flag combinations, three networks, random keys / heartbeat messages / "
         "DER signatures with r,s of 1..33 bytes, 0x31 prefix and trailing bytes) x query command "
         "x device mode transitions during uiHeartbeat; every case is non-trivial (all fields "
